@@ -163,6 +163,48 @@ theorem C13_scope (hroot : RootOK fs root rootFile) {out : List (DefId κ)}
     rw [(C13_result res fs root rootFile hroot h).1]
     exact ⟨⟨q, imp, ds, n, hq, himp, rfl, hds, hi, hreq⟩, hin⟩
 
+/-! ### merging of import lines by `resolve_operation_extensions` -/
+
+/-- When the import lines of a document pass `resolve_operation_extensions`, the merged import list has the same
+    path literals as the raw lines, requests a fragment name from a literal iff some raw line with that literal does
+    (`*` requests every name), and names a fragment explicitly iff some raw line does. -/
+theorem C13_merge {lines : List (RawImport ρ)} {imps : List (Import ρ)} (h : resolveExt lines = .ok imps) :
+    (∀ r, (∃ e ∈ imps, e.rel = r) ↔ ∃ l ∈ lines, l.rel = r) ∧
+    (∀ r n, (∃ e ∈ imps, e.rel = r ∧ Requests e.targets n) ↔
+      ∃ l ∈ lines, l.rel = r ∧ (RawTarget.wildcard ∈ l.targets ∨ RawTarget.name n ∈ l.targets)) ∧
+    (∀ r n, (∃ e ∈ imps, e.rel = r ∧ n ∈ namesOf e.targets) ↔ ∃ l ∈ lines, l.rel = r ∧ RawTarget.name n ∈ l.targets) := by
+  obtain ⟨h1, h2, h3⟩ := extLoop_sem lines [] 0 imps h
+  refine ⟨fun r => ?_, fun r n => ?_, fun r n => ?_⟩
+  · rw [h1]; simp
+  · rw [h2]; simp [RawRequests]
+  · rw [h3]; simp
+
+/-- The reference (reachability, selected definitions, the two error conditions) depends on the import list of each
+    document only through the three views preserved by `C13_merge`: so it is the same whether it is read off the raw
+    `#import` lines or off the merged import lists the resolver works on. -/
+theorem C13_spec_views {fs' : FS κ ρ} {rootFile' : File ρ}
+    (hd : ∀ p, defsAt fs p = defsAt fs' p) (hrid : rootFile.defs.length = rootFile'.defs.length)
+    (h1 : ∀ q r, (∃ imp ∈ importsOf fs root rootFile q, imp.rel = r) ↔
+      ∃ imp ∈ importsOf fs' root rootFile' q, imp.rel = r)
+    (h2 : ∀ q r n, (∃ imp ∈ importsOf fs root rootFile q, imp.rel = r ∧ Requests imp.targets n) ↔
+      ∃ imp ∈ importsOf fs' root rootFile' q, imp.rel = r ∧ Requests imp.targets n)
+    (h3 : ∀ q r n, (∃ imp ∈ importsOf fs root rootFile q, imp.rel = r ∧ n ∈ namesOf imp.targets) ↔
+      ∃ imp ∈ importsOf fs' root rootFile' q, imp.rel = r ∧ n ∈ namesOf imp.targets) :
+    (∀ x, InRef res fs root rootFile x ↔ InRef res fs' root rootFile' x) ∧
+    (Dangling res fs root rootFile ↔ Dangling res fs' root rootFile') ∧
+    (MissingName res fs root rootFile ↔ MissingName res fs' root rootFile') := by
+  have hd' := fun p => (hd p).symm
+  have hr : rootIds root rootFile = rootIds root rootFile' := by simp [rootIds, hrid]
+  refine ⟨fun x => ⟨?_, ?_⟩, ⟨?_, ?_⟩, ⟨?_, ?_⟩⟩
+  · rintro ⟨hs, hn⟩
+    exact ⟨selected_views res root hd (fun q r => (h1 q r).mp) (fun q r n => (h2 q r n).mp) hs, by rw [← hr]; exact hn⟩
+  · rintro ⟨hs, hn⟩
+    exact ⟨selected_views res root hd' (fun q r => (h1 q r).mpr) (fun q r n => (h2 q r n).mpr) hs, by rw [hr]; exact hn⟩
+  · exact dangling_views res root hd (fun q r => (h1 q r).mp)
+  · exact dangling_views res root hd' (fun q r => (h1 q r).mpr)
+  · exact missing_views res root hd (fun q r => (h1 q r).mp) (fun q r n => (h3 q r n).mp)
+  · exact missing_views res root hd' (fun q r => (h1 q r).mpr) (fun q r n => (h3 q r n).mpr)
+
 /-! ### the executable reference used on the O stream is the declarative one -/
 
 /-- `refImports` (plain fixed-point iteration + selection, what the driver answers as "the spec's answer") lists
